@@ -37,6 +37,19 @@ Definition escape_json_string_gen (arms : list (N * N * list N)) (s : text) : te
 (* player.rs:escape_json_string *)
 Definition escape_json_string (s : text) : text := escape_json_string_gen cli_escape_arms s.
 
+(* the characters (below 128) that do NOT survive escape + strict parse: what
+   the checks replay on the binary when the round-trip theorem fails *)
+Fixpoint char_range (n : nat) : list N :=
+  match n with O => [] | S k => char_range k ++ [N.of_nat k] end.
+Definition char_roundtrips (arms : list (N * N * list N)) (c : N) : bool :=
+  match parse_string (quote (escape_json_string_gen arms [c])) with
+  | Some [c'] => N.eqb c' c
+  | _ => false
+  end.
+Definition cli_bad_chars_gen (arms : list (N * N * list N)) : list N :=
+  filter (fun c => negb (char_roundtrips arms c)) (char_range 128).
+Definition cli_bad_chars : list N := cli_bad_chars_gen cli_escape_arms.
+
 (* `s.replace('"', "\\\"")` *)
 Definition replace_quote (s : text) : text :=
   flat_map (fun c => if N.eqb c c_quote then [c_bslash; c_quote] else [c]) s.
@@ -134,6 +147,24 @@ Definition msg_payload_gen (help_msg : text) (m : cli_msg) : json :=
 Definition msg_payload (m : cli_msg) : json := msg_payload_gen cli_help_msg m.
 
 Definition msg_json (m : cli_msg) : json := JObj [(msg_key m, msg_payload m)].
+
+(* the format literals render_json is written with, in the order in which the
+   source has them (compared with Gen/CliGen.cli_json_formats by Cli/CliTie.v) *)
+Definition expected_formats (divert_mode : N) : list (list text) :=
+  [ [T "{""end"": true}"]; [T "{""needInput"": true}"]; [T "{""close"": true}"] ]
+  ++ (if N.eqb divert_mode 0
+      then [ [T "{""issues"": [""Error diverting to '"; T "': "; T """]}"] ]
+      else [ [T "{""issues"": ["""; T """]}"]; [T "Error diverting to '"; T "': "; []] ])
+  ++ [ [T "{""cmdOutput"": """; T """}"];
+       [T "{""text"": """; T """}"];
+       [T """"; T """"];
+       [T "{""tags"": ["; T "]}"];
+       [T """"; T """"];
+       [T "{""issues"": ["; T "]}"];
+       [T "{""text"": """; T """}"];
+       [T """"; T """"];
+       [T "{""text"": """; T """, ""tags"": ["; T "], ""tag_count"": "; T "}"];
+       [T "{""choices"": ["; T "]}"] ].
 
 (* ---------- input ---------- *)
 Inductive input_result :=
